@@ -882,9 +882,77 @@ class FakeOS:
         f.__name__ = name
         return f
 
+    # ---- descriptor-level reads of simulated files ------------------------
+    _FD0 = 1 << 20
+
+    def open(self, path, flags=0, mode=0o777, *, dir_fd=None):
+        if flags & (_os.O_WRONLY | _os.O_RDWR | _os.O_CREAT | _os.O_TRUNC | _os.O_APPEND) or dir_fd is not None:
+            raise Unmodelled("os.open(%r, flags=%#o)" % (path, flags))
+        raw = self._w.sys_open(_os.fsdecode(path))
+        tab = self._w.__dict__.setdefault("_fdtab", {})
+        fd = self._FD0 + len(tab) + 1
+        while fd in tab:
+            fd += 1
+        tab[fd] = raw
+        return fd
+
+    def _raw(self, fd):
+        raw = self._w.__dict__.get("_fdtab", {}).get(fd)
+        if raw is None:
+            if isinstance(fd, int) and fd >= self._FD0:
+                raise oserr(errno.EBADF)
+        return raw
+
+    def read(self, fd, n):
+        raw = self._raw(fd)
+        if raw is None:
+            return _os.read(fd, n)
+        buf = bytearray(n)
+        k = raw.readinto(buf)
+        return bytes(buf[:k or 0])
+
+    def pread(self, fd, n, offset):
+        raw = self._raw(fd)
+        if raw is None:
+            return _os.pread(fd, n, offset)
+        old = raw._pos
+        raw._pos = offset
+        try:
+            return self.read(fd, n)
+        finally:
+            raw._pos = old
+
+    def lseek(self, fd, pos, how):
+        raw = self._raw(fd)
+        if raw is None:
+            return _os.lseek(fd, pos, how)
+        raw._pos = pos if how == 0 else (raw._pos + pos if how == 1 else len(raw._data) + pos)
+        return raw._pos
+
+    def close(self, fd):
+        tab = self._w.__dict__.get("_fdtab", {})
+        if fd in tab:
+            del tab[fd]
+            return None
+        return _os.close(fd)
+
+    def fdopen(self, fd, mode="r", buffering=-1, encoding=None, errors=None, **kw):
+        raw = self._raw(fd)
+        if raw is None:
+            return _os.fdopen(fd, mode, buffering, encoding, errors, **kw)
+        del self._w._fdtab[fd]
+        buf = io.BufferedReader(raw, 8192)
+        return buf if "b" in mode else io.TextIOWrapper(buf, encoding=encoding or "utf-8", errors=errors, newline=kw.get("newline"))
+
+    def fstat(self, fd):
+        raw = self._raw(fd)
+        if raw is None:
+            return _os.fstat(fd)
+        return self._w.sys_stat(raw._path)
+
     for _n in ("wait", "wait3", "wait4", "waitid", "pidfd_open", "fork", "forkpty", "posix_spawn", "posix_spawnp",
                "setpgid", "sched_setscheduler", "sched_getscheduler", "sched_setparam", "sched_getparam",
-               "sched_rr_get_interval", "open", "openpty", "pipe", "pipe2"):
+               "sched_rr_get_interval", "openpty", "pipe", "pipe2"):
         locals()[_n] = _unmodelled(_n)
     del _n, _unmodelled
 
